@@ -1,6 +1,8 @@
 #!/bin/sh
 # usage: seedcheck.sh <seeded-id>   re-confirms a seeded change on the current /repo HEAD in a scratch worktree:
 #   the patch applies, its demonstration passes on the clean tree and fails on the changed tree, the test suite still passes.
+# the test suite spawns sbin/exabgp (#!/usr/bin/env python3): make that the interpreter of the repository's venv whatever launched this script
+export PATH=/venv/bin:$PATH
 ID="$1"; D=/verif/seeded/$ID; WT=/tmp/wt/seed-$ID; L=/tmp/seedlog; mkdir -p $L /tmp/wt
 git -C /repo worktree add -q --detach $WT HEAD || exit 2
 cd $WT
@@ -8,8 +10,12 @@ cp $D/demo.py $WT/seed_demo.py
 PYTHONPATH=$WT/src exabgp_log_enable=false timeout 600 /venv/bin/python seed_demo.py > $L/$ID.clean.txt 2>&1; CLEAN=$?
 if git apply $D/patch.diff 2>$L/$ID.apply.txt; then APPLY=ok; else APPLY=FAIL; fi
 PYTHONPATH=$WT/src exabgp_log_enable=false timeout 600 /venv/bin/python seed_demo.py > $L/$ID.mut.txt 2>&1; MUT=$?
-PYTHONPATH=$WT/src timeout 900 /venv/bin/python -m pytest -q -p no:cacheprovider --timeout=900 -n 4 2>&1 | tail -4 > $L/$ID.tests.txt
+# the whole suite, in two parts: tests/unit/test_environment_naming.py spawns processes with short timeouts and fails on a loaded
+# machine, so it runs on its own after the (parallel) rest
+PYTHONPATH=$WT/src timeout 900 /venv/bin/python -m pytest -q -p no:cacheprovider --timeout=900 -n 8 --deselect tests/unit/test_environment_naming.py 2>&1 | tail -12 > $L/$ID.tests.txt
+PYTHONPATH=$WT/src timeout 300 /venv/bin/python -m pytest -q -p no:cacheprovider --timeout=300 tests/unit/test_environment_naming.py 2>&1 | tail -60 > $L/$ID.tests-env.txt
+ENVT=$(tail -1 $L/$ID.tests-env.txt)
 TESTS=$(tail -1 $L/$ID.tests.txt)
 FAILED=$(grep -c "^FAILED" $L/$ID.tests.txt)
 cd /; git -C /repo worktree remove --force $WT
-echo "RESULT $ID apply=$APPLY demo_clean_rc=$CLEAN demo_mut_rc=$MUT failed_lines=$FAILED tests='$TESTS'"
+echo "RESULT $ID apply=$APPLY demo_clean_rc=$CLEAN demo_mut_rc=$MUT failed_lines=$FAILED tests='$TESTS + $ENVT'"
